@@ -1172,6 +1172,13 @@ class Interp:
                 args = [self.deref_val(st, args[0])] + list(args[1:])
             return self.inline(f, args, st)
         self.unknown_calls[callee] = self.unknown_calls.get(callee, 0) + 1
+        # fail closed: an unmodelled library call that (by its name) mutates its receiver leaves that place unknown
+        last = callee.rsplit("::", 1)[-1]
+        if args and args[0][0] == "ref" and (last in self.MUTATORS or last.startswith(("sort", "dedup", "retain", "drain", "rotate_", "push", "extend", "insert", "remove", "swap"))):
+            try:
+                st = self.write(st, args[0][1], unk("mutated-by:" + last))
+            except Exception:
+                pass
         return [(OK, unk("call:" + callee), st)]
 
     def _from_impl(self, target_ty, v):
@@ -1322,6 +1329,8 @@ class Interp:
             return self.dedupe(out)
         finally:
             self.callstack.pop()
+
+    MUTATORS = {"clear", "truncate", "pop", "append", "split_off", "reverse", "fill", "take", "replace", "set_len", "resize", "make_ascii_lowercase", "make_ascii_uppercase", "get_or_insert", "get_or_insert_with", "entry"}
 
     # ---- a few std intrinsics that are value-transparent
     TRANSPARENT = (
